@@ -2071,6 +2071,13 @@ void sm9_z256_point_add_affine(SM9_Z256_POINT *R, const SM9_Z256_POINT *P, const
 	sm9_z256_modp_mont_sqr(T1, Z1);
 	sm9_z256_modp_mont_mul(H, X2, T1);
 	sm9_z256_modp_sub(H, H, X1);
+	if (sm9_z256_is_zero(H)) {
+		// same x: P = Q (doubling) or P = -Q; the mixed formulas below give (0:0:0) for both
+		SM9_Z256_POINT T;
+		sm9_z256_point_copy_affine(&T, Q);
+		sm9_z256_point_add(R, P, &T);
+		return;
+	}
 	sm9_z256_modp_add(Z3, Z1, H);
 	sm9_z256_modp_mont_sqr(Z3, Z3);
 	sm9_z256_modp_sub(Z3, Z3, T1);
